@@ -157,7 +157,30 @@ func encodeRSAKey(e *jsonutils.Encoder, priv *rsa.PrivateKey, pub *rsa.PublicKey
 
 // sanity check of private key
 func validateRSAPrivateKey(key *rsa.PrivateKey) error {
-	return key.Validate()
+	if key.D == nil || len(key.Primes) < 2 {
+		return errors.New("jwk: invalid rsa private key")
+	}
+	for _, prime := range key.Primes {
+		if prime == nil {
+			return errors.New("jwk: invalid rsa private key")
+		}
+	}
+	if err := key.Validate(); err != nil {
+		return err
+	}
+
+	// key.Validate doesn't check that the prime factors are distinct.
+	// The CRT coefficients (qi and oth[].t) exist only if they are pairwise coprime.
+	one := big.NewInt(1)
+	gcd := new(big.Int)
+	for i, p := range key.Primes {
+		for _, q := range key.Primes[:i] {
+			if gcd.GCD(nil, nil, p, q).Cmp(one) != 0 {
+				return errors.New("jwk: invalid rsa prime factors")
+			}
+		}
+	}
+	return nil
 }
 
 // sanity check of public key
